@@ -1031,7 +1031,10 @@ pub fn run_c14(ctx: &Ctx) -> i32 {
             // a full (or long) block first, then shorter ones: stale tail must not be visible
             for (step, len) in [cap, len1, len2].iter().enumerate() {
                 let data = mk(&mut rng, *len);
-                let by = gen::to_le_bytes(&data, bytes);
+                let off = (idx as usize + data.len()) % 4;
+                let mut by_store = vec![0xEEu8; off];
+                by_store.extend_from_slice(&gen::to_le_bytes(&data, bytes));
+                let by = &by_store[off..];
                 fb_i.fill_interleaved(&data).map_err(|e| format!("{e}"))?;
                 fb_b.fill_le_bytes(&by, bytes).map_err(|e| format!("{e}"))?;
                 if fb_i.filled_size() != *len || fb_b.filled_size() != *len {
@@ -1120,7 +1123,10 @@ pub fn run_c14(ctx: &Ctx) -> i32 {
                     viewable = false;
                 }
                 let data: Vec<i32> = (0..len * channels).map(|_| match rng.usize_below(5) { 0 => lo as i32, 1 => hi as i32, _ => rng.range(lo, hi) as i32 }).collect();
-                let by = gen::to_le_bytes(&data, bytes);
+                let off = (idx as usize + data.len()) % 4;
+                let mut by_store = vec![0xEEu8; off];
+                by_store.extend_from_slice(&gen::to_le_bytes(&data, bytes));
+                let by = &by_store[off..];
                 let ri = ti.fill_interleaved(&data);
                 let rb = tb.fill_le_bytes(&by, bytes);
                 if ri.is_ok() != rb.is_ok() {
@@ -1326,7 +1332,10 @@ pub fn mini_c14(ctx: &Ctx, scale: u64, out: &mut Outcome) {
             let lens = if idx % 2 == 0 { [cap, rng.usize_below(cap + 1), rng.usize_below(9)] } else { [1 + rng.usize_below(cap / 4), rng.usize_below(5), cap] };
             for len in lens {
                 let data: Vec<i32> = (0..len * channels).map(|_| match rng.usize_below(4) { 0 => lo as i32, 1 => hi as i32, _ => rng.range(lo, hi) as i32 }).collect();
-                let by = gen::to_le_bytes(&data, bytes);
+                let off = (idx as usize + data.len()) % 4;
+                let mut by_store = vec![0xEEu8; off];
+                by_store.extend_from_slice(&gen::to_le_bytes(&data, bytes));
+                let by = &by_store[off..];
                 fb_i.fill_interleaved(&data).map_err(|e| format!("{e}"))?;
                 fb_b.fill_le_bytes(&by, bytes).map_err(|e| format!("{e}"))?;
                 if len > 0 {
